@@ -561,7 +561,7 @@ func (g *generator) all(run func(*c07Case)) {
 	}
 	// F11: history — ONE signer instance signs three different things in sequence (an illegal
 	// request in the middle); every step is judged on its own input
-	for i := 0; i < n(1, 10); i++ {
+	for i := 0; i < n(2, 12); i++ {
 		for si, s := range signerKinds {
 			grp := fmt.Sprintf("h%d-%d", i, si)
 			key, f := pickKey(), Pick(g.rng, formats)
@@ -569,16 +569,38 @@ func (g *generator) all(run func(*c07Case)) {
 			if g.rng.Bool() {
 				kinds = []string{"blob", "oci", "blob", "oci"}
 			}
+			shared := (i+si)%2 == 0
+			sharedMeta := map[string]string{"common": "v", "releasedBy": "me", "n": fmt.Sprint(g.rng.Intn(100))}
 			for step, kind := range kinds {
 				c := g.base("history", key, f, kind, s)
 				c.Group = grp
-				c.Meta = map[string]string{fmt.Sprintf("step%d", step): fmt.Sprint(g.rng.Intn(100)), "common": fmt.Sprint("v", step)}
+				c.SharedMaps = shared
 				c.VMeta = nil
-				if step == 1 {
-					c.Meta["io.cncf.notary.x"] = "reserved" // this step must fail, the next must not be affected
-				}
-				if step == 3 {
-					c.Meta = nil
+				if shared {
+					// the SAME map objects at every step (contents therefore equal); the middle step is
+					// made illegal through the duration
+					c.Meta = map[string]string{}
+					for k, v := range sharedMeta {
+						c.Meta[k] = v
+					}
+					c.VMeta = map[string]string{"common": "v", "n": sharedMeta["n"]}
+					if c.OCI != nil {
+						delete(c.OCI.Anns, "common")
+						delete(c.OCI.Anns, "releasedBy")
+						delete(c.OCI.Anns, "n")
+						c.VOCI = cloneDesc(c.OCI)
+					}
+					if step == 1 {
+						c.DurNs = -int64(time.Second)
+					}
+				} else {
+					c.Meta = map[string]string{fmt.Sprintf("step%d", step): fmt.Sprint(g.rng.Intn(100)), "common": fmt.Sprint("v", step)}
+					if step == 1 {
+						c.Meta["io.cncf.notary.x"] = "reserved" // this step must fail, the next must not be affected
+					}
+					if step == 3 {
+						c.Meta = nil
+					}
 				}
 				run(c)
 			}
